@@ -21,7 +21,7 @@ RULE = ('For exactly the mutators the property lists, Hypothesis-drawn well-sort
         'forms only where the statement says so.  BVMergeReducedBW is compared at '
         'script level on its own instance family; FPShortSort exhaustively over the '
         '(eb, sb) grid.  Shadowing lets are a separate class (own bucket).  '
-        'Real runs (ddmin, hierarchical, hybrid; -j 1 and 2) with the arity-independent identity rewrites plus two constant-changing rewrites enabled, on scripts whose definitions are applied in the assertions, against a command that accepts two thirds of all candidates: every accepted step made by an identity rewrite leaves sort and value of every asserted formula unchanged (8 assignments; keys run/...).  Non-trivial: an instance with >= 1 free variable for which a proposal was '
+        'The proposals for a node must not depend on whether filter() and mutations() alternate node by node (hierarchical) or filter() is asked about all nodes first (ddmin).  Real runs (ddmin, hierarchical, hybrid; -j 1 and 2) with the arity-independent identity rewrites plus two constant-changing rewrites enabled, on scripts whose definitions are applied in the assertions, against a command that accepts two thirds of all candidates: every accepted step made by an identity rewrite leaves sort and value of every asserted formula unchanged (8 assignments; keys run/...).  Non-trivial: an instance with >= 1 free variable for which a proposal was '
         'produced; distinct = (mutator, original term).')
 ASSUMPTIONS = [
     'relative to the evaluator (validated against z3 by tools/validate_eval.py); Int quantifiers are interpreted over {-2..2} (the listed identities are domain-independent)',
@@ -244,6 +244,43 @@ def check_script(dd, case, acc, muts, z3_budget=None):
                     nt = True
                     acc.nontrivial.add(runner.digest([mname, orig]))
     return nt, counts
+
+
+def check_call_order(dd, case, acc):
+    """ddmin asks filter() about every node first and calls mutations() afterwards; the
+    hierarchical strategy alternates.  The proposals for a node must be the same either way."""
+    exprs = [model.to_node(dd, c) for c in case['cmds']]
+    dd.smtlib.collect_information(exprs)
+    nodes_ = [model.get_path(exprs, tuple(path)) for path, _ in case['terms']]
+
+    def props(m, n):
+        try:
+            with guard.cpu_limit(3.0):
+                return [(sorted((k, model.to_plain(v) if v is not None else None) for k, v in p.substs.items()),
+                         [model.to_plain(f) for f in p.fresh_vars]) for p in m.mutations(n)]
+        except (Exception, guard.CpuTimeout):  # noqa
+            return 'raises'
+
+    def ok(m, n):
+        try:
+            return bool(m.filter(n))
+        except Exception:  # noqa
+            return False
+
+    for (mname, m1), (_, m2) in zip(mutators_listed(dd), mutators_listed(dd)):
+        alternating = {}
+        for n in nodes_:
+            if ok(m1, n):
+                alternating[n.id] = props(m1, n)
+        accepted = [n for n in nodes_ if ok(m2, n)]
+        for n in accepted:
+            got = props(m2, n)
+            if n.id in alternating and got != alternating[n.id]:
+                acc.violation(f'{mname}/depends-on-call-order',
+                              f'{mname} on {model.render(model.to_plain(n))}: filter+mutations per node gives '
+                              f'{str(alternating[n.id])[:200]}, filter on all nodes first and mutations afterwards gives {str(got)[:200]}',
+                              dict(case, focus=[mname, model.render(model.to_plain(n))], kind='call-order'))
+                break
 
 
 # ------------------------------------------------------- BVMergeReducedBW
@@ -516,6 +553,7 @@ def shard(ctx, acc):
         try:
             with guard.cpu_limit(60.0):
                 nt, counts = check_script(dd, case, acc, muts, z3_budget)
+                check_call_order(dd, case, acc)
         except guard.CpuTimeout:
             acc.skip('cpu-limit')
             return
@@ -555,6 +593,8 @@ def replay(case, acc, ctx):
     env.set_options(dd, ['in.smt2', 'out.smt2', '/bin/true'])
     if case.get('kind') == 'merge':
         check_merge(dd, case, acc)
+    elif case.get('kind') == 'call-order':
+        check_call_order(dd, case, acc)
     elif case.get('kind') == 'run':
         check_run(dd, case, acc, os.path.join(ctx.workdir, 'replay'))
     elif case.get('kind') == 'fpshort':
